@@ -1,6 +1,7 @@
 package main
 
 import (
+	"encoding/json"
 	"flag"
 	"fmt"
 	"os"
@@ -26,6 +27,7 @@ func register(id, explanation string, rules ...ruleFn) {
 }
 
 var verbose *bool
+var extraFile *string
 var loadStart time.Time
 
 func main() {
@@ -36,6 +38,7 @@ func main() {
 	verif := flag.String("verif", "/verif", "verification directory (known_findings.json, replay/, evidence/)")
 	dump := flag.String("dump", "", "debug: dump facts (tables|paths:<fn>|reach:<prop>)")
 	verbose = flag.Bool("v", false, "print every obligation")
+	extraFile = flag.String("extra", "", "JSON object merged into evidence.coverage (thorough tier: checker validation results)")
 	noEvidence := flag.Bool("no-evidence", false, "do not write evidence/replay (used when analysing scratch variants)")
 	flag.Parse()
 	if t := os.Getenv("VERIF_TIER"); t != "" && *tier == "" {
@@ -89,7 +92,7 @@ func runProp(c *Ctx, id, tier string, seed int64, verif, evid string, noEvidence
 	r := newReport(id, tier, seed, verif)
 	r.start = loadStart // wall time includes loading and type-checking /repo
 	if noEvidence {
-		r.VerifDir = os.TempDir()
+		r.noReplay = true
 	}
 	defer func() {
 		if e := recover(); e != nil {
@@ -103,6 +106,16 @@ func runProp(c *Ctx, id, tier string, seed int64, verif, evid string, noEvidence
 	}
 	if *verbose {
 		r.dumpObs()
+	}
+	if *extraFile != "" {
+		if data, err := os.ReadFile(*extraFile); err == nil {
+			var m map[string]any
+			if json.Unmarshal(data, &m) == nil {
+				for k, v := range m {
+					r.extra[k] = v
+				}
+			}
+		}
 	}
 	path := evid
 	if path == "" || multi {
